@@ -811,7 +811,7 @@ class Evaluator:
             except Unreadable as e:
                 # a body the accumulation idioms do not cover (e.g. a statement-level method call on state): in effect
                 # mode the generic loop records what each iteration does
-                if self.effects_mode and ctx.fx and "loop body statement" in str(e):
+                if "loop body statement" in str(e) and (not self.effects_mode or ctx.fx):
                     it_term, binds = self.iter_binding(st.iter, st.target, env, ctx, body=st.body)
                     lv_env = dict(env)
                     lv_env.update(binds)
@@ -822,7 +822,11 @@ class Evaluator:
             from .norm import all_atoms_deep
             if any(isinstance(a, tuple) and a and a[0] == "loopvar" for a in all_atoms_deep(c.x if isinstance(c.x, Rat) else ("t", c.x))) \
                     or "loopvar" in repr(c.x):
-                raise Unreadable("loop body is piecewise in a loop-variant condition")
+                # the body distinguishes cases per element: the generic loop represents it row by row
+                it_term, binds = self.iter_binding(st.iter, st.target, env, ctx, body=st.body)
+                lv_env = dict(env)
+                lv_env.update(binds)
+                return self._generic_loop(it_term, st.body, conds, env, lv_env, list(binds), ctx)
             out = []
             saved = self.assume
             for cc in (c, c.negate()):
